@@ -644,7 +644,7 @@ def run(ctx):
             ctx.extra["defect_witness_still_fails"] = {KNOWN_KEY: bool(legacy)}
         verdict_inproc(ctx, pcases, ucases + [wit], res)
     from props import c14_e2e
-    c14_e2e.run(ctx, objdir)
+    c14_e2e.run(ctx, objdir, h)
 
 
 def replay(ctx, obj):
@@ -654,7 +654,7 @@ def replay(ctx, obj):
     c = dict(obj.get("case") or {})
     if mode == "e2e":
         from props import c14_e2e
-        c14_e2e.replay(ctx, objdir, obj)
+        c14_e2e.replay(ctx, objdir, h, obj)
         return
     if not c:
         ctx.log("replay file has no case; nothing to re-execute")
